@@ -129,6 +129,11 @@ pub fn run(seed: u64, n: usize, tier: &str) {
     let mut stack: Vec<Vec<u8>> = vec![vec![]];
     while let Some(s) = stack.pop() {
         from_bytes_case(&s).print();
+        // whatever parses also goes through to_cid (that is where an ill-formed prefix would panic)
+        if Prefix::from_bytes(&s).is_some() {
+            let (i, o) = to_cid_case::<64>(&s, &[1, 2, 3]);
+            Case { input: i, output: o, tags: vec!["to_cid/exhaustive".into()], nontrivial: true }.print();
+        }
         if s.len() < depth {
             for b in ALPHABET {
                 let mut t = s.clone();
@@ -150,6 +155,23 @@ pub fn run(seed: u64, n: usize, tier: &str) {
             Case { input: i, output: o, tags: vec![format!("to_cid/table/{code:#x}")], nontrivial: true }.print();
             let (i, o) = to_cid_case::<32>(&pb, &data);
             Case { input: i, output: o, tags: vec![format!("to_cid/table32/{code:#x}")], nontrivial: true }.print();
+        }
+    }
+
+    // grid: version x codec x every table code x declared size, through from_bytes + to_cid
+    for ver in [0u64, 1, 2, 0x12] {
+        for codec in [0x70u64, 0x55, 0x20] {
+            for code in TABLE_CODES {
+                for size in [0u64, 20, 32, 64, 65] {
+                    let mut bs = leb128(ver);
+                    bs.extend(leb128(codec));
+                    bs.extend(leb128(*code));
+                    bs.extend(leb128(size));
+                    let (i, o) = to_cid_case::<64>(&bs, &[9, 9]);
+                    let nt = !matches!(&o, J::C(_, a) if a[0] == J::c0("ToNoPrefix"));
+                    Case { input: i, output: o, tags: vec![format!("to_cid/grid/v{ver}")], nontrivial: nt }.print();
+                }
+            }
         }
     }
 
@@ -179,7 +201,7 @@ pub fn run(seed: u64, n: usize, tier: &str) {
                 // structured prefix: four varints with boundary values, maybe truncated/extended
                 let ver = *rng.pick(&[0u64, 1, 1, 1, 2, 0x12, 66]);
                 let mut bs = leb128(ver);
-                bs.extend(leb128(if rng.chance(1, 4) { 0x20 } else { rng.boundary_u64() }));
+                bs.extend(leb128(match rng.below(8) { 0 | 1 => 0x20, 2 | 3 => 0x70, 4 => 0x55, _ => rng.boundary_u64() }));
                 bs.extend(leb128(if rng.chance(1, 2) { *rng.pick(TABLE_CODES) } else { rng.boundary_u64() }));
                 bs.extend(leb128(if rng.chance(1, 2) { rng.below(70) } else { rng.boundary_u64() }));
                 if rng.chance(1, 5) {
